@@ -205,6 +205,7 @@ def cone_runs(ctx, cvxopt, kinds, n_inst, max_variants, prop, judge_exceptions=F
         elif focus == 's-blocks':
             # targeted search: several 's' blocks of order >= 2 (and a 'q' block), small objective so that the gap converges first
             dims = {'l': rng.randint(0, 2), 'q': [rng.randint(2, 3)] if rng.random() < 0.5 else [], 's': [rng.randint(2, 3) for _ in range(rng.randint(1, 2))]}
+            if rng.random() < 0.4: dims['s'] = [1] + dims['s']          # a degenerate block in front
             pr = PR.planted_conelp(rng, kind, dims=dims)
             if kind == 'optimal' and rng.random() < 0.7:
                 t = rng.choice([1e-4, 1e-3])
@@ -215,6 +216,9 @@ def cone_runs(ctx, cvxopt, kinds, n_inst, max_variants, prop, judge_exceptions=F
         elif i % 5 == 4:
             # semidefinite programs without equality constraints, two or three 's' blocks: the shape the external solver DSDP accepts
             dims = {'l': rng.randint(0, 2), 'q': [], 's': [rng.randint(1, 3) for _ in range(rng.randint(2, 3))]}
+            if i % 10 == 9:
+                dims['s'] = rng.choice([[1, 2], [1, 3], [1, 0, 2], [1, 1, 3]])          # degenerate blocks (order 0 / 1) in front of a larger one
+                if 'optimal' in kinds: kind = 'optimal'
             pr = PR.planted_conelp(rng, kind, dims=dims, p=0)
         else: pr = PR.planted_conelp(rng, kind)
         for tag, fn, tol, Gj, hj in variants_conelp(cvxopt, PR, pr, rng, max_variants, focus):
